@@ -415,11 +415,15 @@ def main(argv=None):
             else:
                 merged.buckets[key] = b
         merged.excluded_known.update(pre.excluded_known)
+        harness_errors = errors
         if errors:
             for e in errors:
                 print("HARNESS-ERROR:", e, file=sys.stderr)
-            merged.cleanup()
-            return 2
+            if not any(k[1] is None for k in merged.buckets):
+                merged.cleanup()
+                return 2
+            # violations were recorded before a worker broke down: they are reported (exit 1); the
+            # breakdown itself is on stderr (on the unchanged tree neither happens)
 
         # 3. triage buckets
         violations = []
